@@ -72,6 +72,10 @@ def run_on(b, zroot, aroot, pz, pa, script, depth, emb, dz, da):
             elif ch["ch"] == "dense":
                 for _ in zr.iterRangeShapeRef(0, 2):
                     pass
+            elif ch["ch"] == "copyin":
+                zr <<= ar                    # the offered sub-fiber is assigned the source's sub-fiber as a whole
+            elif ch["ch"] == "clearit":
+                zr.clear()
 
     try:
         loop(zroot, aroot, [], depth)
